@@ -49,7 +49,7 @@ func newInterp(p *core.Program, fn *core.FuncRef) *absint.Interp {
 	in := &absint.Interp{Info: fn.Info(), Prog: p}
 	in.Hooks.Inline = helperInline(p, fn.Pkg.PkgPath, fn.Obj)
 	in.Hooks.FreeVar = func(v *types.Var) ast.Expr { return pureDefinition(fn, v) }
-	in.Hooks.FreeStruct = func(v *types.Var) (*ast.CompositeLit, map[string]bool) { return structDefinition(p, fn, v) }
+	in.Hooks.FreeStruct = func(v *types.Var) (ast.Expr, map[string]bool) { return objectDefinition(p, fn, v) }
 	in.Hooks.FreeClosure = func(v *types.Var) *ast.FuncLit {
 		// a local of the enclosing function bound exactly once, to a literal (`limitReached := func() bool {…}`)
 		info := fn.Info()
@@ -440,11 +440,32 @@ func funcValueLit(p *core.Program, fn *core.FuncRef, e ast.Expr) *ast.FuncLit {
 	case *types.Func:
 		helperInline(p, "", nil) // make sure the declaration index is built
 		if fr := helperDecls[p][o]; fr != nil {
+			// a method value (x.M): the method's body with its receiver standing for x — one node per use
+			if sel, ok := e.(*ast.SelectorExpr); ok && fr.Decl.Recv != nil && len(fr.Decl.Recv.List) == 1 && len(fr.Decl.Recv.List[0].Names) == 1 {
+				if s := info.Selections[sel]; s != nil && s.Kind() == types.MethodVal {
+					factoryMu.Lock()
+					cached, done := methodValueLits[sel]
+					factoryMu.Unlock()
+					if done {
+						return cached
+					}
+					out := &ast.FuncLit{Type: fr.Decl.Type, Body: fr.Decl.Body}
+					if ro := fr.Info().Defs[fr.Decl.Recv.List[0].Names[0]]; ro != nil {
+						setLitBinds(out, map[types.Object]ast.Expr{ro: sel.X})
+					}
+					factoryMu.Lock()
+					methodValueLits[sel] = out
+					factoryMu.Unlock()
+					return out
+				}
+			}
 			return &ast.FuncLit{Type: fr.Decl.Type, Body: fr.Decl.Body}
 		}
 	}
 	return nil
 }
+
+var methodValueLits = map[*ast.SelectorExpr]*ast.FuncLit{}
 
 // helperClosure: fn followed by the unexported functions and methods of its own package that it reaches through
 // static calls (transitively, each once). AST rules that look for a construct "in function F" look in this closure,
@@ -497,6 +518,71 @@ func structDefinition(p *core.Program, fn *core.FuncRef, v *types.Var) (*ast.Com
 	if def == nil || !ok {
 		return nil, nil
 	}
+	return stableLiteralFields(fn, st, lit)
+}
+
+// objectDefinition: for a local of fn defined once by `T{…}`, `&T{…}` or a call of an unexported constructor of the
+// package (a function whose result is such a literal), the defining expression and the fields no code of the package
+// ever writes — the object as a captured use finds it, whatever earlier uses did to its other fields.
+func objectDefinition(p *core.Program, fn *core.FuncRef, v *types.Var) (ast.Expr, map[string]bool) {
+	if fn == nil || fn.Decl == nil || fn.Decl.Body == nil || v.Pos() < fn.Decl.Body.Pos() || v.Pos() > fn.Decl.Body.End() {
+		return nil, nil
+	}
+	t := v.Type()
+	if pt, ok := t.Underlying().(*types.Pointer); ok {
+		t = pt.Elem()
+	}
+	st, ok := t.Underlying().(*types.Struct)
+	if !ok {
+		return nil, nil
+	}
+	info := fn.Info()
+	def := singleDef(info, fn.Decl.Body, v)
+	if def == nil {
+		return nil, nil
+	}
+	var lit *ast.CompositeLit
+	var litOwner = fn
+	switch x := core.Unparen(def).(type) {
+	case *ast.CompositeLit:
+		lit = x
+	case *ast.UnaryExpr:
+		if x.Op == token.AND {
+			lit, _ = core.Unparen(x.X).(*ast.CompositeLit)
+		}
+	case *ast.CallExpr:
+		f, ok := core.Callee(info, x).(*types.Func)
+		if !ok || f.Pkg() == nil || f.Pkg().Path() != fn.Pkg.PkgPath || f.Exported() {
+			return nil, nil
+		}
+		helperInline(p, "", nil)
+		fr := helperDecls[p][f]
+		if fr == nil || fr.Decl.Body == nil || len(fr.Decl.Body.List) == 0 {
+			return nil, nil
+		}
+		rs, ok := fr.Decl.Body.List[len(fr.Decl.Body.List)-1].(*ast.ReturnStmt)
+		if !ok || len(rs.Results) != 1 {
+			return nil, nil
+		}
+		r := core.Unparen(rs.Results[0])
+		if ue, ok := r.(*ast.UnaryExpr); ok && ue.Op == token.AND {
+			r = core.Unparen(ue.X)
+		}
+		lit, _ = r.(*ast.CompositeLit)
+		litOwner = fr
+	}
+	if lit == nil {
+		return nil, nil
+	}
+	_, stable := stableLiteralFields(litOwner, st, lit)
+	if stable == nil {
+		return nil, nil
+	}
+	return def, stable
+}
+
+func stableLiteralFields(fn *core.FuncRef, st *types.Struct, lit *ast.CompositeLit) (*ast.CompositeLit, map[string]bool) {
+	info := fn.Info()
 	written := map[*types.Var]bool{}
 	for _, f := range fn.Pkg.Syntax {
 		ast.Inspect(f, func(n ast.Node) bool {
